@@ -26,8 +26,9 @@ META = {
               'facts about log)', 'libinfo kernels replaced by their specification in the Python-level jobs (the specification is '
               'what E2 proves about the kernel)'],
     'assumptions': ['exact real arithmetic', 'joint-count tables are non-negative with a positive total per feature pair'],
-    'outside': ['MI <= min(H_x, H_y), MI >= 0 and KL >= 0 as transcendental inequalities (attempted only on 2x2 tables in the '
-                'thorough tier; reported inconclusive when z3 gives up)', 'deconvolute_network, mi_to_nmi_apc (not in the property)',
+    'outside': ['MI <= min(H_x, H_y) (needs the product law of log, which the tangent-bound abstraction does not give); MI >= 0 beyond 2x2 '
+                'tables (2x2: all tables with 12 and with 1000 observations, and unbounded totals for tables with an empty cell; larger '
+                'tables attempted in the thorough tier); KL >= 0 beyond 4 outcomes', 'deconvolute_network, mi_to_nmi_apc (not in the property)',
                 'weighted_mi beyond the clauses listed in the evidence'],
 }
 
@@ -195,6 +196,55 @@ def mi_diag_job(S):
             out['skip_compare'] = True
             return out
         return PathOut(obs, {}, witness, desc='MI diagonal S=%d' % S)
+    return path
+
+
+def mi_nonneg_job(sa, sb, zero_cells=(), total=None):
+    """mutual information of an arbitrary joint-count table is non-negative (Gibbs' inequality through the tangent bounds of
+    the abstracted logarithm); zero_cells = cells fixed to 0 (the code skips them)"""
+    mi_mod = loader.load('enspara.info_theory.mutual_info')
+
+    def path(ctx):
+        ctx.resolve_masks = True
+        ctx.abstract_log = True
+        ctx.log_bounds = True
+        ctx.purify_div = True
+        jc = np.empty((1, 1, sa, sb), dtype=object)
+        for u in range(sa):
+            for v in range(sb):
+                jc[0, 0, u, v] = 0 if (u, v) in zero_cells else core.fresh_int('jc', 1, None)
+        if total is not None:       # all tables with this many observations (keeps the frequencies linear in the counts)
+            tot = 0
+            for u in range(sa):
+                for v in range(sb):
+                    tot = tot + jc[0, 0, u, v]
+            ctx.add(core.to_z3_bool(tot == total))
+        exc = None
+        try:
+            m = mi_mod.mutual_information(to_sarr(jc))
+            val = core.as_sfloat(_raw(m)[0, 0])
+        except Exception as e:
+            exc = e
+
+        def witness(model):
+            cj = np.zeros((1, 1, sa, sb), dtype=np.uint32)
+            for ix in np.ndindex(cj.shape):
+                c = jc[ix]
+                cj[ix] = int(ev(model, c)) if isinstance(c, SVal) else int(c)
+            out = {'inputs': {'joint_counts': cj.tolist()}, 'skip_compare': True}
+            with core.concrete_mode():
+                try:
+                    m2 = float(mi_mod.mutual_information(cj)[0, 0])
+                except Exception as e:
+                    out.update(exception=repr(e), out=None, violated=['raises ' + type(e).__name__], signature='exception:' + type(e).__name__)
+                    return out
+            out['out'] = m2
+            out['violated'] = [] if m2 >= -1e-12 else ['mutual-information-negative']
+            return out
+        if exc is not None:
+            return PathOut([('no-exception', False)], {}, witness, exc=type(exc).__name__, desc='raises %s: %s' % (type(exc).__name__, str(exc)[:100]))
+        obs = [('mutual-information-is-finite-and-non-negative', core.sand(core.SBool.mk(val.fin), val >= 0))]
+        return PathOut(obs, {}, witness, desc='MI >= 0 on a %dx%d table, zero cells %s' % (sa, sb, list(zero_cells)))
     return path
 
 
@@ -671,6 +721,14 @@ def jobs(tier):
         add('mi_perm_job', 'mi-relabel[2x3]', sa=2, sb=3)
     for S in ((2,) if q else (2, 3)):
         add('mi_diag_job', 'mi-diagonal[S=%d]' % S, S=S)
+    add('mi_nonneg_job', 'mi>=0[2x2, 12 observations]', sa=2, sb=2, total=12)
+    add('mi_nonneg_job', 'mi>=0[2x2, 1000 observations]', sa=2, sb=2, total=1000)
+    add('mi_nonneg_job', 'mi>=0[2x2, one empty cell]', sa=2, sb=2, zero_cells=((0, 1),))
+    add('mi_nonneg_job', 'mi>=0[2x2, diagonal]', sa=2, sb=2, zero_cells=((0, 1), (1, 0)))
+    if not q:
+        add('mi_nonneg_job', 'mi>=0[2x2]', sa=2, sb=2)
+        add('mi_nonneg_job', 'mi>=0[2x3]', sa=2, sb=3)
+        add('mi_nonneg_job', 'mi>=0[3x3, band]', sa=3, sb=3, zero_cells=((0, 2), (2, 0)))
     shapes = [([2], [2]), ([2, 3], [3, 2]), ([2, 3], [2, 3]), ([3, 2], [4, 4]), ([2, 3, 4], [3, 3, 2]), ([2, 3], [2, 3, 4]),
               ([2], [3, 4]), ([4, 2, 3], [2])]
     for nx, ny in shapes:
